@@ -20,6 +20,8 @@ import (
 	"strings"
 	"time"
 
+	"github.com/iden3/go-iden3-crypto/constants"
+	"github.com/iden3/go-iden3-crypto/poseidon"
 	"github.com/iden3/go-merkletree-sql/v2"
 	"github.com/iden3/go-merkletree-sql/v2/db/memory"
 	"github.com/iden3/go-schema-processor/v2/merklize"
@@ -717,4 +719,80 @@ func (d *drv) dupPathDoc() *docgen.Doc {
 	}
 	b, _ := json.Marshal(obj)
 	return &docgen.Doc{Bytes: b, Obj: obj, Features: map[string]bool{"dup-path:" + why: true}, Expect: "error", Why: why}
+}
+
+// ---- hashers that give no usable hash for the empty message ----
+
+// emptyNilHasher is Poseidon, except that HashBytes of an empty message returns (nil, nil), like
+// plain poseidon.HashBytesX and the repository's own testHasher do. Fix 58805e9 guards only
+// PoseidonHasher.HashBytes, so with this hasher a nil hash travels on.
+type emptyNilHasher struct{}
+
+func (emptyNilHasher) Hash(in []*big.Int) (*big.Int, error) { return poseidon.Hash(in) }
+func (emptyNilHasher) HashBytes(msg []byte) (*big.Int, error) {
+	if len(msg) == 0 {
+		return nil, nil
+	}
+	return poseidon.HashBytes(msg)
+}
+func (emptyNilHasher) Prime() *big.Int { return new(big.Int).Set(constants.Q) }
+
+// emptyBigHasher returns a value outside the field (Q + 5) for the empty message.
+type emptyBigHasher struct{}
+
+func (emptyBigHasher) Hash(in []*big.Int) (*big.Int, error) { return poseidon.Hash(in) }
+func (emptyBigHasher) HashBytes(msg []byte) (*big.Int, error) {
+	if len(msg) == 0 {
+		return new(big.Int).Add(constants.Q, big.NewInt(5)), nil
+	}
+	return poseidon.HashBytes(msg)
+}
+func (emptyBigHasher) Prime() *big.Int { return new(big.Int).Set(constants.Q) }
+
+const (
+	hiEmptyNil = 3 // index of emptyNilHasher in drv.hs
+	hiEmptyBig = 4
+)
+
+// emptyStringDoc: an empty string literal in every position (top-level value, nested node, array
+// member first/middle/last, typed through the context, inside a named graph). No hasher gives the
+// empty message a usable hash, so the document must be rejected with an error: never a panic,
+// never a merklizer with a leaf missing.
+func (d *drv) emptyStringDoc() *docgen.Doc {
+	r := d.cfg.Rng
+	v := docgen.Vocab
+	var obj map[string]any
+	why := ""
+	switch r.Intn(8) {
+	case 0:
+		obj = map[string]any{"@id": "urn:e:root", v + "name": "", v + "other": "x"}
+		why = "empty-value"
+	case 1:
+		obj = map[string]any{"@id": "urn:e:root", v + "a": map[string]any{v + "b": map[string]any{"@id": "urn:e:n", v + "name": ""}}, v + "other": "x"}
+		why = "empty-nested"
+	case 2:
+		obj = map[string]any{"@id": "urn:e:root", v + "tags": []any{"", "x", "y"}}
+		why = "empty-array-first"
+	case 3:
+		obj = map[string]any{"@id": "urn:e:root", v + "tags": []any{"x", "", "y"}}
+		why = "empty-array-middle"
+	case 4:
+		obj = map[string]any{"@id": "urn:e:root", v + "tags": []any{"x", "y", ""}, v + "n": 5}
+		why = "empty-array-last"
+	case 5:
+		obj = map[string]any{"@context": map[string]any{"name": map[string]any{"@id": v + "name", "@type": docgen.XSD + "string"}},
+			"@id": "urn:e:root", "name": "", v + "k": true}
+		why = "empty-typed"
+	case 6:
+		var ctx any
+		_ = json.Unmarshal([]byte(ngCtx), &ctx)
+		obj = map[string]any{"@context": ctx, "id": "urn:e:root", "name": "r",
+			"g": []any{map[string]any{"id": "urn:e:v1", "name": "ok"}, map[string]any{"id": "urn:e:v2", "name": ""}}}
+		why = "empty-in-named-graph"
+	default:
+		obj = map[string]any{"@id": "urn:e:root", v + "only": ""}
+		why = "empty-only"
+	}
+	b, _ := json.Marshal(obj)
+	return &docgen.Doc{Bytes: b, Obj: obj, Features: map[string]bool{"empty-string:" + why: true}, Expect: "error", Why: why}
 }
